@@ -106,6 +106,7 @@ def run(res, tier, build_ok):
     decs["transportid"] = (importlib.import_module("pyscsi.pyscsi.scsi_cdb_persistentreservein").PersistentReserveInReadFullStatus.unmarshall_transport_id, [{}])
     blds = builders()
     orc = stdresp.Oracle(common.SEED * 7919 + 6)
+    orc.canonical_only = True      # responses in the form the library's builders produce (e.g. 4 reserved bytes after the volume tags)
     rng = random.Random(common.SEED * 104729 + 6)
     reqs = []
     try:
